@@ -16,10 +16,9 @@ character) — possibly empty, so braces may or may not be surrounded by space; 
 where the printer overrides the lay-out is between two lexemes that would otherwise fuse
 (name or integer directly followed by a name), where an empty gap is printed as one blank.
 A final unterminated comment may follow.  Command names are printed as the program spells them
-(any letter case; `WFProg` accepts every spelling whose upper-casing is a command).
+(any letter case; `WFProg` accepts every spelling whose upper-casing is a command of `commandTable`).
 -/
 import PybtexModel.Model.Lines
-import PybtexModel.Gen.BstCommands
 
 namespace Pybtex.Bst
 
@@ -175,9 +174,17 @@ mutual
     | t :: ts => wfTok t && wfToks ts
 end
 
-/-- number of argument groups of a command name, looked up case-insensitively (ASCII) in the
-table regenerated from `BstParser.COMMANDS` -/
-def cmdArity (name : Str) : Option Nat := Gen.bstCommands.lookup (upper name)
+/-- The ten `.bst` commands and the number of argument groups each takes (BibTeX, "Designing
+BibTeX styles", section 5.2).  This is the reference; that pybtex's own table
+(`BstParser.COMMANDS`, regenerated into `Gen/BstCommands.lean` on every run) says the same is a
+proof obligation (`Lemmas/BstFuel.lean: commands_table`). -/
+def commandTable : List (Str × Nat) :=
+  [("ENTRY".toList, 3), ("EXECUTE".toList, 1), ("FUNCTION".toList, 2), ("INTEGERS".toList, 1),
+   ("ITERATE".toList, 1), ("MACRO".toList, 2), ("READ".toList, 0), ("REVERSE".toList, 1),
+   ("SORT".toList, 0), ("STRINGS".toList, 1)]
+
+/-- number of argument groups of a command name, looked up case-insensitively (ASCII) -/
+def cmdArity (name : Str) : Option Nat := commandTable.lookup (upper name)
 
 def wfCommand (c : Command) : Bool :=
   wfName c.name && cmdArity c.name == some c.groups.length && c.groups.all wfToks
